@@ -585,8 +585,6 @@ func (p *Parser) parseSlots() []*ast.SlotStmt {
 			if !p.expectPeek(token.RPAREN) { // move to ")"
 				return nil
 			}
-
-			p.nextToken() // skip ")"
 		}
 
 		slots = append(slots, &ast.SlotStmt{
@@ -666,7 +664,6 @@ func (p *Parser) parseInsertStmt() ast.Statement {
 	}
 
 	if hasBody {
-		p.nextToken() // skip ")"
 		stmt.Block = p.parseBlockStmt()
 	}
 
@@ -811,8 +808,6 @@ func (p *Parser) parseIfStmt() *ast.IfStmt {
 		return nil
 	}
 
-	p.nextToken() // skip ")"
-
 	stmt.Consequence = p.parseBlockStmt()
 
 	for p.peekTokenIs(token.ELSE_IF) {
@@ -854,10 +849,8 @@ func (p *Parser) parseElseIfStmt() *ast.ElseIfStmt {
 		return nil
 	}
 
-	p.nextToken() // skip ")"
-
 	return &ast.ElseIfStmt{
-		Token:       p.curToken,
+		Token:       p.peekToken,
 		Condition:   condition,
 		Consequence: p.parseBlockStmt(),
 	}
@@ -865,7 +858,6 @@ func (p *Parser) parseElseIfStmt() *ast.ElseIfStmt {
 
 func (p *Parser) parseAlternativeBlock() *ast.BlockStmt {
 	p.nextToken() // move to "@else"
-	p.nextToken() // skip "@else"
 
 	alt := p.parseBlockStmt()
 
@@ -912,12 +904,10 @@ func (p *Parser) parseForStmt() *ast.ForStmt {
 		return nil
 	}
 
-	p.nextToken() // skip ")"
-
 	stmt.Block = p.parseBlockStmt()
 
 	if p.peekTokenIs(token.ELSE) {
-		p.nextToken() // skip "@else"
+		p.nextToken() // move to "@else"
 		stmt.Alternative = p.parseBlockStmt()
 	}
 
@@ -954,12 +944,10 @@ func (p *Parser) parseEachStmt() *ast.EachStmt {
 		return nil
 	}
 
-	p.nextToken() // skip ")"
-
 	stmt.Block = p.parseBlockStmt()
 
 	if p.peekTokenIs(token.ELSE) {
-		p.nextToken() // skip "@else"
+		p.nextToken() // move to "@else"
 		stmt.Alternative = p.parseBlockStmt()
 	}
 
@@ -970,21 +958,20 @@ func (p *Parser) parseEachStmt() *ast.EachStmt {
 	return stmt
 }
 
+// parseBlockStmt parses the statements that follow the current token up to
+// (not including) the next "@else", "@elseif" or "@end". The current token
+// is the one right before the block, so an empty block is allowed.
 func (p *Parser) parseBlockStmt() *ast.BlockStmt {
-	stmt := &ast.BlockStmt{Token: p.curToken}
+	stmt := &ast.BlockStmt{Token: p.peekToken}
 
-	for !p.curTokenIs(token.END) && !p.curTokenIs(token.EOF) && !p.curTokenIs(token.ILLEGAL) {
+	for !p.peekTokenIs(token.ELSE, token.ELSE_IF, token.END, token.EOF, token.ILLEGAL) {
+		p.nextToken() // move to the statement
+
 		block := p.parseStatement()
 
 		if block != nil {
 			stmt.Statements = append(stmt.Statements, block)
 		}
-
-		if p.peekTokenIs(token.ELSE, token.ELSE_IF, token.END) {
-			break
-		}
-
-		p.nextToken() // skip statement
 	}
 
 	return stmt
